@@ -7,7 +7,7 @@ from ..common import Res, cmp_mats, flat
 PID = 'C13'
 LEVEL = 'model_checking'
 RULE = ('state = (wavelet, mode, J, level, (H,W)); the size map is the identity, transitions are the J a-trous levels; for every '
-        'wavelet x mode in {constructor default, periodic} x J<=3 x (H,W) multiples of 2^J the complete impulse basis is pushed '
+        'wavelet x mode in {constructor default, periodic} x J<=3 x (H,W) multiples of 2^J (plus J=4,5 at 16x16 / 32x16 / 32x32) the complete impulse basis is pushed '
         'through SWTForward; oracles: output is a list of J tensors (N,C,4,H,W); level j equals pywt.swt2(level=J, '
         'trim_approx=False)[J-j] as (cA,cH,cV,cD); the extracted operator commutes with every circular shift (dy,dx); '
         'distinct_nontrivial = distinct non-zero extracted operators')
@@ -46,11 +46,17 @@ def plan(tier):
             for J in (1, 2, 3):
                 for hw in sizes(J, tier, L):
                     items.append({'wave': w, 'mode': mode, 'J': J, 'h': hw[0], 'w': hw[1]})
+            # deeper levels (the dilation is a function of the level index, so the level loop is NOT uniform in it)
+            if L <= 20:
+                items.append({'wave': w, 'mode': mode, 'J': 4, 'h': 16, 'w': 16})
+            if L <= 8:
+                items.append({'wave': w, 'mode': mode, 'J': 4, 'h': 32, 'w': 16})
+                items.append({'wave': w, 'mode': mode, 'J': 5, 'h': 32, 'w': 32})
     return items
 
 
 def required_regimes(tier):
-    return {'mode:default', 'mode:periodic', 'J:1', 'J:2', 'J:3', 'size:h!=w', 'filter_longer_than_image', 'shift_commutation', 'channels:2'}
+    return {'mode:default', 'mode:periodic', 'J:1', 'J:2', 'J:3', 'J:4', 'J:5', 'size:h!=w', 'filter_longer_than_image', 'shift_commutation', 'channels:2'}
 
 
 def run(item):
@@ -106,7 +112,7 @@ def run(item):
         res.violation('swt_vs_pywt', cfg, d, tags)
     res.op(Ai)
     # two channels at once (channel 1 carries the impulses in reverse order): every level of every channel equals the reference
-    if P <= 256:
+    if P <= 256 and J <= 3:
         X2 = np.concatenate([X, X[::-1]], axis=1)
         try:
             o2 = m(torch.as_tensor(X2))
@@ -125,14 +131,12 @@ def run(item):
     # shift equivariance on the extracted operator: A[(j,b,y,x),(y0,x0)] == A[(j,b,y+dy,x+dx),(y0+dy,x0+dx)] for all shifts
     A6 = Ai.reshape(J, 4, h, ww, h, ww)
     worst = 0.0
-    for dy in range(h):
-        for dx in range(ww):
-            if dy == 0 and dx == 0:
-                continue
-            B = np.roll(np.roll(np.roll(np.roll(A6, dy, axis=2), dx, axis=3), dy, axis=4), dx, axis=5)
-            worst = max(worst, float(np.abs(B - A6).max()))
+    # commutation with the two generators (1,0) and (0,1) of the shift group implies commutation with every shift (dy,dx)
+    for (dy, dx) in ((1, 0), (0, 1)):
+        B = np.roll(np.roll(A6, dy, axis=2), dy, axis=4) if dy else np.roll(np.roll(A6, dx, axis=3), dx, axis=5)
+        worst = max(worst, float(np.abs(B - A6).max()))
     res.regime('shift_commutation')
-    res['evals'] += h * ww - 1
+    res['evals'] += 2
     if worst > common.TOL * max(1.0, common.maxabs(Ai)):
         res.violation('shift_equivariance', cfg, {'kind': 'value', 'maxdev': worst, 'tol': common.TOL}, tags)
     if (h, ww, J) == (8, 16, 2) or (h, ww, J) == (8, 8, 2):
